@@ -10,3 +10,16 @@ pub fn load_then_run(f: &crate::fancy_keys::Layout, ops: &Vec<Op>) {
     Err(_message) => { },
   }
 }
+
+//@ C14 | parse-load-then-run: for every JSON value, the real parser, the real converter and the real mapper compose without a precondition left open: whatever the parser returns the converter takes, whatever the converter accepts the mapper runs, for every operation sequence
+pub fn parse_load_then_run(v: &crate::serde_json::Value, ops: &Vec<Op>) {
+  match crate::layout_parsing_formatting::parse_layout_from_json(v) {
+    Ok(f) => {
+      match crate::fancy_layout_interpreting::convert(&f) {
+        Ok(layout) => { universal_client(&layout, ops); },
+        Err(_message) => { },
+      }
+    },
+    Err(_message) => { },
+  }
+}
